@@ -209,6 +209,17 @@ class Runner:
             if cands:
                 cands[int(op[1]) % len(cands)].crash()
                 self.faults_applied += 1
+        elif kind == 'rpc_master':
+            # a user XML-RPC issued on the instance that most live instances hold as Master
+            votes = {}
+            for x in w.instances:
+                if x.alive and x.supvisors is not None and x.supvisors.state_modes.master_identifier:
+                    votes[x.supvisors.state_modes.master_identifier] = votes.get(x.supvisors.state_modes.master_identifier, 0) + 1
+            if votes:
+                master = w.by_identifier(sorted(votes, key=lambda k: (-votes[k], k))[0])
+                if master is not None and master.alive:
+                    res = master.call('supvisors', op[1], *op[2])
+                    w.obs('user_result', master.idx, op[1], res[0], res[1] if len(res) > 1 and res[0] == 'fault' else None)
         elif kind == 'exit_running':
             # unexpected / expected exit of the k-th child that is truly RUNNING somewhere
             cands = [(x, n) for x in w.instances if x.alive for n, state in sorted(x.truth().items()) if state == 20]
